@@ -29,6 +29,7 @@ RULE = (
     "it; every non-cancelled consumer finishes, lock free at quiescence; source closed exactly when no child "
     "is live. Non-trivial: >=2 items delivered and >=2 consumers made progress; distinct = distinct "
     "(scenario, interleaving) by 64-bit hash; schedule_digests_distinct counts distinct (task, token kind) traces."
+    " Extensions of rounds 9-12: the tee object itself closed at the end (aclose / async with) with lagging children; closing counts as being inside the source; the source may deliver one object twice in a row; a child may not be told the end before the source reported it."
 )
 COMPONENTS = COMPONENTS_AIO
 ASSUMPTIONS = [
